@@ -1,5 +1,6 @@
 import Model.Tsig
 import Proofs.TsigReader
+import Proofs.TsigName
 /-! The MAC input determines the authenticated content: two accepted messages with the same (input, MAC). -/
 namespace Model.Tsig
 open Model Rfc8945
@@ -179,6 +180,27 @@ structure Accepted (V : Verifier) (tbl : List AlgEntry) (w : Bytes) (k : Key) (n
   parse : rdataParse w (p + 10) w.length = .ok rd
   valid : validateV V tbl w k owner rd now rm s ctx multi = .ok (c, c')
 
+/-- whatever the keyring: a message reported as signed *and checked* went through `validate` with the key the
+keyring resolves for its owner name -/
+theorem accepted_of_read_any (V : Verifier) (tbl : List AlgEntry) (strict : Bool) (w : Bytes) (kr : Keyring) (now : Nat)
+    (rm : Bytes) (ctx : Option Ctx) (multi : Bool) (r : ReadOk) (f : Found) (c0 : Ctx) (m0 : Bytes)
+    (h : readV V tbl strict w kr now rm ctx multi = .ok r) (hf : r.tsig = some f) (hchk : f.checked = some (c0, m0)) :
+    ∃ s p owner rd k c c', resolveKey kr owner rd = .ok (some k) ∧ f = ⟨owner, rd, some (c, rd.mac)⟩ ∧ r.ctx = c'
+      ∧ Accepted V tbl w k now rm ctx multi s p owner rd c c' ∧ (strict = true → rd32 w (p + 4) = 0) := by
+  obtain ⟨hl, _, s, p, st3, hw, hp, ht, hr, hend, hts, hctx⟩ := readV_signed V tbl strict w kr now rm ctx multi r f h hf
+  obtain ⟨_, hcls, _, hstrict, hle, hcur, owner, rd, hfw, hrd, hcase⟩ :=
+    readRR_tsig V tbl strict w kr now rm multi 3 _ _ ⟨s, none, ctx⟩ st3 p hp ht hr
+  have hwl : p + 10 + rd16 w (p + 8) = w.length := by rw [← hcur, hend]
+  rcases hcase with ⟨hres, htsig, _⟩ | ⟨key, c, c', hres, hv, htsig, hc'⟩
+  · rw [hts] at htsig
+    have := Option.some.inj htsig
+    subst this
+    simp at hchk
+  · refine ⟨s, p, owner, rd, key, c, c', hres, ?_, by rw [hctx, hc'],
+      ⟨hl, hw, hp, hwl, ht, hcls, hfw, by rw [← hwl]; exact hrd, hv⟩, hstrict⟩
+    rw [hts] at htsig
+    exact (Option.some.inj htsig)
+
 theorem accepted_of_read (V : Verifier) (tbl : List AlgEntry) (strict : Bool) (w : Bytes) (k : Key) (now : Nat)
     (rm : Bytes) (ctx : Option Ctx) (multi : Bool) (r : ReadOk) (f : Found)
     (h : readV V tbl strict w (.key k) now rm ctx multi = .ok r) (hf : r.tsig = some f) :
@@ -200,18 +222,32 @@ theorem accepted_of_read (V : Verifier) (tbl : List AlgEntry) (strict : Bool) (w
 key, request MAC, running context and `multi`, whose MAC inputs are the same octet string: their TSIG RRs start
 at the same offset, they agree on every octet from 2 up to there (everything but the message ID), and on the
 original ID, time signed and fudge; for a first/stand-alone message also on error and other data. -/
-theorem same_input_same_content (V1 V2 : Verifier) (tbl : List AlgEntry) (w1 w2 : Bytes) (k : Key) (now1 now2 : Nat)
+theorem same_input_same_content (V1 V2 : Verifier) (tbl : List AlgEntry) (w1 w2 : Bytes) (k1 k2 : Key) (now1 now2 : Nat)
     (rm : Bytes) (ctx : Option Ctx) (multi : Bool) (s1 s2 p1 p2 : Nat) (o1 o2 : Name) (rd1 rd2 : Rdata) (c1 c2 : Ctx)
     (c1' c2' : Option Ctx) (ho1 : OctetsOk w1) (ho2 : OctetsOk w2)
-    (a1 : Accepted V1 tbl w1 k now1 rm ctx multi s1 p1 o1 rd1 c1 c1')
-    (a2 : Accepted V2 tbl w2 k now2 rm ctx multi s2 p2 o2 rd2 c2 c2')
+    (a1 : Accepted V1 tbl w1 k1 now1 rm ctx multi s1 p1 o1 rd1 c1 c1')
+    (a2 : Accepted V2 tbl w2 k2 now2 rm ctx multi s2 p2 o2 rd2 c2 c2')
     (hd : c1.data = c2.data) :
     s1 = s2 ∧ (∀ i, 2 ≤ i → i < s1 → w1[i]? = w2[i]?)
       ∧ (newWire w1 s1).drop 2 = (newWire w2 s2).drop 2
       ∧ rd1.originalId = rd2.originalId ∧ rd1.timeSigned = rd2.timeSigned ∧ rd1.fudge = rd2.fudge
-      ∧ ((multi = false ∨ ctx = none) → rd1.error = rd2.error ∧ rd1.other = rd2.other) := by
-  obtain ⟨h01, _, _, _, _, hd1, _, _⟩ := validateV_ok V1 tbl w1 k o1 rd1 now1 rm s1 ctx multi c1 c1' a1.valid
-  obtain ⟨h02, _, _, _, _, hd2, _, _⟩ := validateV_ok V2 tbl w2 k o2 rd2 now2 rm s2 ctx multi c2 c2' a2.valid
+      ∧ ((multi = false ∨ ctx = none) → rd1.error = rd2.error ∧ rd1.other = rd2.other
+          ∧ canon k1.name = canon k2.name ∧ canon k1.algorithm = canon k2.algorithm) := by
+  obtain ⟨h01, _, _, hn1, hg1, hd1, _, _⟩ := validateV_ok V1 tbl w1 k1 o1 rd1 now1 rm s1 ctx multi c1 c1' a1.valid
+  obtain ⟨h02, _, _, hn2, hg2, hd2, _, _⟩ := validateV_ok V2 tbl w2 k2 o2 rd2 now2 rm s2 ctx multi c2 c2' a2.valid
+  -- the canonical key and algorithm names are canonical forms of decoded (absolute) names
+  have cn1 : canon k1.name = toWire (lowerName o1) := by
+    rw [← digestable_eq_canon]; unfold digestable; rw [(nameEq_iff _ _).mp hn1]
+  have cn2 : canon k2.name = toWire (lowerName o2) := by
+    rw [← digestable_eq_canon]; unfold digestable; rw [(nameEq_iff _ _).mp hn2]
+  have ca1 : canon k1.algorithm = toWire (lowerName rd1.algorithm) := by
+    rw [← digestable_eq_canon]; unfold digestable; rw [(nameEq_iff _ _).mp hg1]
+  have ca2 : canon k2.algorithm = toWire (lowerName rd2.algorithm) := by
+    rw [← digestable_eq_canon]; unfold digestable; rw [(nameEq_iff _ _).mp hg2]
+  have ao1 := absLabels_lower _ (absLabels_of_decode w1 s1 o1 a1.own)
+  have ao2 := absLabels_lower _ (absLabels_of_decode w2 s2 o2 a2.own)
+  have ag1 := absLabels_lower _ (rdataParse_alg_abs w1 _ rd1 a1.parse)
+  have ag2 := absLabels_lower _ (rdataParse_alg_abs w2 _ rd2 a2.parse)
   have hs1 : s1 ≤ w1.length := by have := skipName_bounds _ _ _ _ _ a1.name; omega
   have hs2 : s2 ≤ w2.length := by have := skipName_bounds _ _ _ _ _ a2.name; omega
   have hb1 := (walkTo_bounds w1 s1 a1.walk).1
@@ -222,32 +258,37 @@ theorem same_input_same_content (V1 V2 : Verifier) (tbl : List AlgEntry) (w1 w2 
   have key : ∃ (P r1 r2 : Bytes), c1.data = P ++ fedMessage rd1.originalId w1 s1 r1
       ∧ c2.data = P ++ fedMessage rd2.originalId w2 s2 r2
       ∧ (r1 = r2 → rd1.timeSigned = rd2.timeSigned ∧ rd1.fudge = rd2.fudge
-          ∧ ((multi = false ∨ ctx = none) → rd1.error = rd2.error ∧ rd1.other = rd2.other)) := by
+          ∧ ((multi = false ∨ ctx = none) → rd1.error = rd2.error ∧ rd1.other = rd2.other
+              ∧ canon k1.name = canon k2.name ∧ canon k1.algorithm = canon k2.algorithm)) := by
     cases hm : (if multi then ctx else none) with
     | none =>
-      refine ⟨(if rm = [] then [] else macField rm), variables (varsOf k rd1 none), variables (varsOf k rd2 none), ?_, ?_, ?_⟩
-      · rw [digest_first_data tbl _ k rd1 none rm ctx multi c1 hm hd1]; simp [fedMessage]
-      · rw [digest_first_data tbl _ k rd2 none rm ctx multi c2 hm hd2]; simp [fedMessage]
+      refine ⟨(if rm = [] then [] else macField rm), variables (varsOf k1 rd1 none), variables (varsOf k2 rd2 none), ?_, ?_, ?_⟩
+      · rw [digest_first_data tbl _ k1 rd1 none rm ctx multi c1 hm hd1]; simp [fedMessage]
+      · rw [digest_first_data tbl _ k2 rd2 none rm ctx multi c2 hm hd2]; simp [fedMessage]
       · intro hv
         simp only [variables, varsOf, Option.getD_none, List.append_assoc] at hv
+        -- the key name, a prefix-free code, splits off
+        rw [cn1, cn2] at hv
+        obtain ⟨en, hv⟩ := toWire_prefix_free _ _ ao1 ao2 _ _ hv
         have hv := List.append_cancel_left hv
         have hv := List.append_cancel_left hv
-        have hv := List.append_cancel_left hv
-        have hv := List.append_cancel_left hv
+        rw [ca1, ca2] at hv
+        obtain ⟨ea, hv⟩ := toWire_prefix_free _ _ ag1 ag2 _ _ hv
         obtain ⟨e1, hv⟩ := List.append_inj hv (by simp [be_length])
         obtain ⟨e2, hv⟩ := List.append_inj hv (by simp [be_length])
         obtain ⟨e3, hv⟩ := List.append_inj hv (by simp [be_length])
         obtain ⟨_, e4⟩ := List.append_inj hv (by simp [be_length])
-        exact ⟨be6_inj _ _ bt1 bt2 e1, be2_inj _ _ bf1 bf2 e2, fun _ => ⟨be2_inj _ _ be1 be2 e3, e4⟩⟩
+        exact ⟨be6_inj _ _ bt1 bt2 e1, be2_inj _ _ bf1 bf2 e2,
+          fun _ => ⟨be2_inj _ _ be1 be2 e3, e4, by rw [cn1, cn2, en], by rw [ca1, ca2, ea]⟩⟩
     | some c0 =>
       have hmulti : multi = true ∧ ctx = some c0 := by
         cases multi <;> simp at hm
         exact ⟨rfl, hm⟩
       obtain ⟨hmt, hcx⟩ := hmulti
       subst hmt; subst hcx
-      refine ⟨c0.data, timers (varsOf k rd1 none), timers (varsOf k rd2 none), ?_, ?_, ?_⟩
-      · rw [digest_later_data tbl _ k rd1 none rm c0 c1 hd1]; simp [fedMessage]
-      · rw [digest_later_data tbl _ k rd2 none rm c0 c2 hd2]; simp [fedMessage]
+      refine ⟨c0.data, timers (varsOf k1 rd1 none), timers (varsOf k2 rd2 none), ?_, ?_, ?_⟩
+      · rw [digest_later_data tbl _ k1 rd1 none rm c0 c1 hd1]; simp [fedMessage]
+      · rw [digest_later_data tbl _ k2 rd2 none rm c0 c2 hd2]; simp [fedMessage]
       · intro hv
         simp only [timers, varsOf, Option.getD_none] at hv
         obtain ⟨e1, e2⟩ := List.append_inj hv (by simp [be_length])
